@@ -20,15 +20,17 @@ PROVED = ['[P] sign_rule: m mod 4 in {2,3} <-> m(m-1)/2 odd',
           '[P] discriminant_affine_model / discriminant_shift / discriminant_negx: for canonical lists f, g with Poly g = Poly f o (a X + b), a <> 0, deg f >= 1: discriminant g = a^(n(n-1)) discriminant f; in particular unchanged under x -> x + c and x -> -x',
           '[P] resultant_roots (product formula over algebraically closed fields: Res(a prod (X - alpha_i), B) = a^deg B prod B(alpha_i), via the Euclid recurrence), resultant_mull_Z / resultant_mulr_Z: multiplicativity of the resultant over Z[x] (through Z -> algC)',
           '[P] discriminant_mul_model: for canonical lists f, g, fg of degree >= 1 with Poly fg = Poly f * Poly g: discriminant fg = discriminant f * discriminant g * (resultant f g)^2 on the values returned by the model',
+          '[P] discriminant_root_differences (fifth wave): the closed form for the model: for every canonical f of degree n >= 1, in either mode, the run returns d, and for every list r_1..r_k of algebraic numbers (MathComp algC) with '
+          'f = lc(f) prod (x - r_i) over algC (roots with multiplicity): k = n and d = lc(f)^(2n-2) * prod_{i<j} (r_i - r_j)^2 (1 for degree 1); discriminant_root_differences_ex: such a list exists (algC is algebraically closed)',
           '[C] discriminant_flag_no_panic_partial, discriminant_partial, discriminant_det_partial, discriminant_eq0_partial: the first-wave conditional forms (kept; now subsumed)']
-NOT_PROVED = ['the closed form lc(f)^(2n-2) * product of squared root differences is not stated for the model (the product formula resultant_roots is proved at spec level only)']
+NOT_PROVED = []
 PROFILES = ('debug', 'release')
 
 TIMEOUT = 3600          # per service process; the extracted model computes with Coq's binary integers (slow on 64-bit coefficients)
 
 CLAIM = dict(
     technique='Coq proofs about the Gallina model of discriminant (sign rule, degree 0/1 cases, termination, exactness of every division via the sub-resultant structure theorem of C04 and lc f | det Sylvester(f,f\'), d * lc f = (-1)^(n(n-1)/2) det Sylvester(f,f\')) + extracted-model-vs-implementation correspondence + Sylvester/Bareiss oracle and metamorphic relations on every case',
-    text='For all canonical inputs of degree >= 1 (length fits a usize), both modes: discriminant returns d with d * lc f = (-1)^(n(n-1)/2) det Sylvester(f, f\') (discriminant_spec), all divisions exact, no panic, d = 0 iff f has a repeated factor, d unchanged under x -> x + c and x -> -x (discriminant_shift, discriminant_negx; the transformed polynomial is given as a second canonical list related by MathComp composition); disc(fg) = disc f disc g Res(f,g)^2 (discriminant_mul_model); plus the sign rule and the zero/constant/linear cases. '
+    text='For all canonical inputs of degree >= 1 (length fits a usize), both modes: discriminant returns d with d * lc f = (-1)^(n(n-1)/2) det Sylvester(f, f\') (discriminant_spec), all divisions exact, no panic, d = 0 iff f has a repeated factor, d unchanged under x -> x + c and x -> -x (discriminant_shift, discriminant_negx; the transformed polynomial is given as a second canonical list related by MathComp composition); disc(fg) = disc f disc g Res(f,g)^2 (discriminant_mul_model); d = lc(f)^(2n-2) * prod_{i<j} (r_i - r_j)^2 for the roots r_i of f in the algebraic numbers, with multiplicity (discriminant_root_differences); plus the sign rule and the zero/constant/linear cases. '
          'All identities are additionally checked by independent oracles on every generated case.',
     note='Unconditional since the second wave (exactness flag proved always true).',
     ref='DESIGN.md section 4, C05')
